@@ -335,6 +335,23 @@ func predC06(e *vlib.Env, in *input, a answer) {
 		if eg.scope != scExt {
 			bad("inside-not-to-external", fmt.Sprintf("packet from inside the AS forwarded to interface %d which is not an external interface of this router", a.egress))
 		}
+		// The pair of AS-level links traversed must be admissible no matter over which local link
+		// the packet arrived. When the packet comes from a sibling router and THIS router takes it
+		// across the segment change, nobody else has looked at the pair: the link by which the
+		// packet entered the AS (travel-direction ingress interface of the current hop) and the
+		// egress link must form an admissible segment-change pair.
+		if d.segmentChange() {
+			hf, _ := d.p.GetHopField(d.currHF())
+			inf, _ := d.p.GetInfoField(d.currINF())
+			entry := hf.ConsEgress
+			if inf.ConsDir {
+				entry = hf.ConsIngress
+			}
+			pair := [2]int{in.cfg.ltOf(int(entry)), eg.lt}
+			if !allowedChange[pair] {
+				bad("segment-change-pair-from-inside", fmt.Sprintf("packet handed over by a sibling/internal link forwarded across a segment change: entered the AS by interface %d (link type %d), leaves by interface %d (link type %d)", entry, pair[0], a.egress, pair[1]))
+			}
+		}
 		return
 	}
 	pair := [2]int{in.cfg.ltOf(int(in.link.ID)), eg.lt}
@@ -429,9 +446,14 @@ func linkTable(e *vlib.Env, w *world, st *stats) {
 				for inSc := 0; inSc < 3; inSc++ { // 0 internal, 1 sibling, 2 external
 					for egSc := 0; egSc < 4; egSc++ { // internal(0) sibling external none
 						for cd := 0; cd < 2; cd++ {
-							sc := tableScenario(r, inLT, egLT, xo == 1, inSc, egSc, cd == 1)
-							if sc != nil {
-								emit(e, w, st, sc, fmt.Sprintf("table"))
+							for post := 0; post < 2; post++ {
+								if post == 1 && !(xo == 1 && inSc == 1) {
+									continue
+								}
+								sc := tableScenario(r, inLT, egLT, xo == 1, inSc, egSc, cd == 1, post == 1)
+								if sc != nil {
+									emit(e, w, st, sc, "table")
+								}
 							}
 						}
 					}
@@ -442,7 +464,7 @@ func linkTable(e *vlib.Env, w *world, st *stats) {
 }
 
 // tableScenario builds a valid packet whose only open question is the interface pair.
-func tableScenario(r *vlib.Rand, inLT, egLT int, xover bool, inSc, egSc int, consDir bool) *scenario {
+func tableScenario(r *vlib.Rand, inLT, egLT int, xover bool, inSc, egSc int, consDir, postX bool) *scenario {
 	now := time.Now()
 	sc := &scenario{now: now, pathType: 1, kind: "table"}
 	sc.cfg.ia = 0x1ff0000000110
@@ -512,7 +534,7 @@ func tableScenario(r *vlib.Rand, inLT, egLT int, xover bool, inSc, egSc int, con
 		sc.currHF, sc.currINF = 1, 0
 		set(&sc.segs[0], sc.segs[0].cons(1), inID, 0)
 		set(&sc.segs[1], sc.segs[1].cons(0), 0, egID)
-		if inSc == 1 && r.Bool() {
+		if postX {
 			sc.postX = true
 			sc.currHF, sc.currINF = 2, 1
 		}
